@@ -99,6 +99,26 @@ def stRun (fn : String) (base : Nat) (mem : List Byte) : Option String :=
   | "uq" => some (us (strtouqE 64 mem base))
   | _ => none
 
+/-- the canonical line of one qsort call (ops `qs`, `qsn`) -/
+def qsLine (esize kind seed : Nat) (keys : List Int) : String :=
+  let a : List (Int × Nat) := keys.zipIdx
+  let cmp : (Int × Nat) → (Int × Nat) → Int := fun x y => cmpKeys kind x.1 y.1
+  match qsort cmp (randStream (a.length + 1) (seed % 2 ^ 32)) a with
+  | none => "fault"
+  | some (out, _) =>
+    -- round 3b: the harness computes the RUN-based form (`canon_runs` = `canonRuns`), the theorems are about
+    -- `canonLex`; that the two agree on the model's (ordered) output is checked here on every op
+    let o := out.map fun e => (e.1, if esize > 1 then e.2 else 0)
+    let c := canonLex cmp pairLe o
+    if c == canonRuns cmp pairLe o then showElems (esize > 1) c else "canonLex-differs-from-canonRuns"
+
+/-- the nested calls of the ops `qsn` / `bsn`: in the model a call made from inside a comparator is an
+independent call (the model has no state: `qsort_nested_comparator`), so the line is what the inner
+qsort and the strto* call give on their own -/
+def nestedLine (iesize : Nat) (ikeys : List Int) (fn : String) (base : Nat) (t : List Byte) : Option String := do
+  let st ← stRun fn base (t ++ [0#8])
+  pure (" | " ++ qsLine iesize 0 1 ikeys ++ " | " ++ st)
+
 def stepLine (_ : Unit) (line : String) : Unit × String :=
   let r : Option String :=
     match words line with
@@ -107,6 +127,28 @@ def stepLine (_ : Unit) (line : String) : Unit × String :=
     | ["consts"] => some ((if randStateBits ≥ 32 then "rand-state>=32u" else "rand-state " ++ toString randStateBits ++ "u") ++ " ERANGE " ++ toString ERANGE ++ " EINVAL " ++ toString EINVAL)
     | ["ctype"] => some (String.join ((List.range 384).map fun (i : Nat) => hexOfNat 2 (ctypeBits (Int.ofNat i - 128))))
     | ["premain", _] => some premainLine
+    | ["qsn", esize, kind, seed, _, _, iesize, ikeys, fn, base, t, keys] => do
+        let esize ← esize.toNat?
+        let kind ← kind.toNat?
+        let seed ← seed.toNat?
+        let keys ← ints? keys
+        let iesize ← iesize.toNat?
+        let ikeys ← ints? ikeys
+        let base ← base.toNat?
+        let t ← parseBytes? t
+        let nl ← nestedLine iesize ikeys fn base t
+        pure (qsLine esize kind seed keys ++ nl)
+    | ["bsn", _, kind, key, _, _, iesize, ikeys, fn, base, t, keys] => do
+        let kind ← kind.toNat?
+        let key ← key.toInt?
+        let keys ← ints? keys
+        let iesize ← iesize.toNat?
+        let ikeys ← ints? ikeys
+        let base ← base.toNat?
+        let t ← parseBytes? t
+        let nl ← nestedLine iesize ikeys fn base t
+        pure (bsShow kind key keys ++ " " ++ (match upperBound (cmpKeys kind) key keys with | some i => toString i | none => "fault") ++ " " ++
+          (match lowerBound (cmpKeys kind) key keys with | some i => toString i | none => "fault") ++ nl)
     | ["stx", _, _, _] => some "returns"
     | ["stL", fn, base, pre, unit, count, tail] => do
         let base ← base.toNat?
@@ -221,13 +263,8 @@ def stepLine (_ : Unit) (line : String) : Unit × String :=
         let kind ← kind.toNat?
         let seed ← seed.toNat?
         let keys ← ints? keys
-        let a : List (Int × Nat) := keys.zipIdx
-        let cmp : (Int × Nat) → (Int × Nat) → Int := fun x y => cmpKeys kind x.1 y.1
-        match qsort cmp (randStream (a.length + 1) (seed % 2 ^ 32)) a with
-        | none => pure "fault"
-        | some (out, _) =>
-          -- canonical form: the arrangement inside a run of equal elements is not fixed by the property
-          pure (showElems (esize > 1) (canonLex cmp pairLe (out.map fun e => (e.1, if esize > 1 then e.2 else 0))))
+        -- canonical form: the arrangement inside a run of equal elements is not fixed by the property
+        pure (qsLine esize kind seed keys)
     | [bd, _, kind, key, keys] => do
         let kind ← kind.toNat?
         let key ← key.toInt?
